@@ -3547,3 +3547,41 @@ pub fn load_then_wait_family() -> Vec<Program> {
     }
     out
 }
+
+/// ARC-getmut-acq: three handles - main keeps two, a child gets one, writes a cell (not part of
+/// the payload) and drops its handle; main drops its second handle and calls `get_mut` on the
+/// first; if that succeeds the child's drop has happened, and main reads / writes the cell: a
+/// successful `get_mut` must acquire every earlier drop, also when the caller itself was the
+/// last one to drop. With one or two children, the cell accessed by the first one.
+pub fn arc_getmut_acq_family() -> Vec<Program> {
+    let mut out = vec![];
+    for nremote in 1..=2usize {
+        let mut pre: Vec<Op> = vec![K::ArcNew { h: 0, arc: 0 }.into()];
+        for t in 1..=nremote {
+            pre.push(K::ArcClone { from: 0, to: 2 * t }.into());
+        }
+        let nh = 2 * nremote + 2;
+        pre.push(K::ArcClone { from: 0, to: nh }.into());
+        for child_writes in [true, false] {
+            let remote: Vec<Vec<Op>> = (1..=nremote).map(|t| if t == 1 { vec![if child_writes { wr(0) } else { rd(0) }, K::ArcDrop { h: 2 * t }.into()] } else { vec![K::ArcDrop { h: 2 * t }.into()] }).collect();
+            for drop_first in [true, false] {
+                // main: [drop its second handle]; get_mut; access the cell if it succeeded
+                let mut mid: Vec<Op> = vec![];
+                if drop_first {
+                    mid.push(K::ArcDrop { h: nh }.into());
+                }
+                let gi = nremote + mid.len(); // index of get_mut in main (after the spawns)
+                mid.push(K::ArcGetMut { h: 0 }.into());
+                let acc = if child_writes { K::CellRead { c: 0 } } else { K::CellWrite { c: 0 } };
+                let objs = Objs { handles: nh + 1, arcs: vec![None], cells: 1, ..Default::default() };
+                let mut p = with_main("ARC-getmut-acq", objs, pre.clone(), remote.clone(), mid, vec![]);
+                // the guarded access goes right after get_mut; indices are positions in main
+                let pos = p.threads[0].iter().position(|o| matches!(o.k, K::ArcGetMut { .. })).unwrap();
+                let _ = gi;
+                p.threads[0].insert(pos + 1, acc.when(pos, Res::V(1)));
+                out.push(p);
+            }
+        }
+    }
+    out
+}
